@@ -37,7 +37,7 @@ CLAIMED["C18"] = ("Partial deductive proof of the sequential clauses: every type
          "Trusted: gvc, the sequential channel and atomic.Pointer models, assumed contracts of sync.Map/atomic.Pointer/context. Not covered: every interleaving clause (Value racing the first Set, Fill racing Wait, concurrent first calls of a Lazy); Lazy is sync.OnceValue (trusted). Two genuine defects repaired by fix: commits.",
          "4.12", CLAIMED["C06"][3])
 CLAIMED["C19"] = ("Deductive proof of functional contracts of the pure helpers with loop invariants, pure callbacks as uninterpreted functions, ghost permutations and maps as (domain, value) functions: xslices All/Any/Chunk/Clear/Clone/Count(Func)/Equal(Func)/Fill/Filter(InPlace)/Grow/Index(Func)/Insert/Join/LastIndex(Func)/Map/Partition/Reduce/Remove/RemoveUnordered/Repeat/Reverse/Runs/Shrink/Unique(InPlace), xsort order algebra and Search, xmath Abs (per integer width, exact wrap)/Min/Max/Clamp, xmaps ToIndex/FromKeysAndValues/Set/SetFromSlice/Difference/Union/ReverseSingle, xrand rShuffle (permutation) and the samplers rSample/rSampleSlice/rSampleIterator/rSampleStream (no panic, documented result length, on a trusted contract of sampler.Next).",
-         "Trusted: gvc, SMT solvers, assumed contracts of package slices/sort. Assumed: orders are strict weak orders, callbacks pure, NaN not modelled. Not under contract (listed in evidence): xslices Group/Compact*, xsort Merge/MergeSlices/MinK, xmaps Reverse/Intersection/Intersects, xerrors, xrand Sample*; uniformity of sampling is probabilistic and not decidable here.",
+         "Trusted: gvc, SMT solvers, assumed contracts of package slices/sort. Assumed: orders are strict weak orders, callbacks pure, NaN not modelled. xerrors.WithStack is exercised only by a bounded stand-in (an in-package test of 5 error chains injected with go test -overlay; labelled bounded, never counted as proved; it found and now guards the repaired idempotence defect). Not under contract (listed in evidence): xslices Group/Compact*, xsort Merge/MergeSlices, xmaps Reverse/Intersection/Intersects; uniformity of sampling is probabilistic and not decidable here.",
          "4.13", CLAIMED["C06"][3])
 CLAIMED["C20"] = ("Partial deductive proof: SleepContext's decision logic (nil at once iff d <= 0; DeadlineTooSoonError with the right fields iff a deadline closer than d, before any timer exists; otherwise nil only through the arm of a timer created with exactly d, ctx.Err() only through the Done arm); JitterTicker argument validation (panics iff d <= 0 or jitter >= d), no panic for 0 <= jitter < d, every scheduled delay within [d-jitter, d+jitter], Stop and Reset advance the generation that pending callbacks compare against.",
          "Trusted: gvc, assumed contracts of time.NewTimer/AfterFunc/Until, context, math/rand, sync.Mutex; wall-clock behaviour of timers. Not covered: the callback body's generation check is argued on paper from Stop's proved postcondition; Stop/Reset racing a firing timer; tick spacing as observed on the channel.",
